@@ -1,6 +1,7 @@
 import NutilsVerif.Proofs.C16Sum
 import NutilsVerif.Proofs.C16Slots
 import NutilsVerif.Proofs.C16Static
+import NutilsVerif.Proofs.C16Alias
 import NutilsVerif.Proofs.C16Fork
 import NutilsVerif.Proofs.C16Live
 import NutilsVerif.Proofs.C16Locate
@@ -106,6 +107,39 @@ theorem lockOK_parallel_eq_serial {α : Type} [AddCommMonoid α] (b : List BStmt
     (sh : Nat → α) (sl : Nat → Option α) (σ : List Ev) (hdone : AllDone N (run N n code σ (init sh sl))) (a : Nat) :
     (run N n code σ (init sh sl)).shared a = (serial n code sh sl).1 a :=
   locked_accumulate N n hN code (fun i => lockOK_sufficient b h (code i) (hpath i)) sh sl σ hdone a
+
+/-- Alias rule of the static check (clause "all contributions to a shared result are applied under mutual exclusion", for
+updates that reach the shared array through a *view*): an in-place accumulation through ANY variable `x` whose only
+allocation site is the shared array `v` allocated in front of the parallel loop — `x` may be `v` itself, a diagonal view
+`numpy.einsum('...ii->...i', v)`, a transpose, a slice, a reshape, or a view of a view, bound anywhere — is classified as
+`accum (arrayId v)`: `lockOK` rejects it bare and accepts it inside `with lock<id v>:`.  Together with `lockOK_sufficient`
+and `locked_accumulate`, an accepted script applies every such update under the lock of the array it really modifies. -/
+theorem alias_update_needs_lock (muts scratch : List String) (e : Env) (x v : String) (ix iv : VarInfo)
+    (hx : e.get x = some ix) (hxl : ix.isLock = false) (hxr : ix.roots = [v])
+    (hv : e.get v = some iv) (hvo : iv.outer = true) (hvs : iv.shared = true) (hs : scratch.contains v = false) :
+    (clsS muts scratch e (.mutate true [x] [] [])).2 = [.accum (arrayId v)] ∧
+    lockOK (clsS muts scratch e (.mutate true [x] [] [])).2 = false ∧
+    lockOK [.withLock (arrayId v) (clsS muts scratch e (.mutate true [x] [] [])).2] = true := by
+  rw [alias_accum muts scratch e x v ix iv hx hxl hxr hv hvo hvs hs]
+  simp [lockOK, okL, okS]
+
+/-- How a variable gets the allocation sites of a shared array: binding `x = <anything that is not certainly a new object>(v)`
+(`RhsKind.view`; in front of the loop or inside it) makes `x` a name for the allocation site `v`, so by
+`alias_update_needs_lock` the update `numpy.add(x, …, out=x)` needs `lock<id v>` — the situation of a diagonal view that is
+created once and reused inside the loop. -/
+theorem hoisted_view_is_shared (muts scratch : List String) (o : Bool) (e : Env) (x v : String) (iv : VarInfo)
+    (hv : e.get v = some iv) (hvl : iv.isLock = false) (hvr : iv.roots = [v]) (hvo : iv.outer = true) (hvs : iv.shared = true)
+    (hne : x ≠ v) (hs : scratch.contains v = false) :
+    (clsS muts scratch (bindVar o e x .view [v]) (.mutate true [x] [] [])).2 = [.accum (arrayId v)] := by
+  have hd : List.eraseDups [v] = [v] := rfl
+  have h1 := view_inherits_roots o e x v iv hv hvl (by rw [hvr, hd]; simp)
+  rw [hvr, hd] at h1
+  have h2 : (bindVar o e x .view [v]).get v = some iv := by rw [bindVar_get_ne o e x v .view [v] hne]; exact hv
+  exact alias_accum muts scratch _ x v _ iv h1 rfl rfl h2 hvo hvs hs
+
+/-- the hypotheses of `hoisted_view_is_shared` are satisfiable: `v0 = parallel.shempty(..)` in front of the loop, `v1 = view(v0)` -/
+example : (clsS [] [] (bindVar true (bindVar true [] "v0" .shalloc []) "v1" .view ["v0"]) (.mutate true ["v1"] [] [])).2 = [.accum (arrayId "v0")] :=
+  hoisted_view_is_shared [] [] true _ "v1" "v0" _ (get_cons_self _ []) rfl rfl rfl rfl (by decide) rfl
 
 /-- Plain stores need no lock when every slot belongs to one iteration (`ielems[ipoint] = …`, `points[ipoint] = …` in
 `Topology._locate`; the private slice of `LoopConcatenate`): for ANY program (locks or not), any number of workers
